@@ -91,6 +91,14 @@ pub fn patterns(space: &str, tier: &str, seed: u64) -> Vec<String> {
         push(to_string(&cat(vec![opt(grp(inner.clone())), P::Exists(1), lit('b')])), &mut out);
         push(to_string(&plus(cat(vec![grp(inner.clone()), opt(P::Bref(1))]))), &mut out);
     }
+    if space == "c16" {
+        for p in [
+            r"(?((?=a))(?<t>a)|(?<f>b))", r"(?(?=a)(a)|(b))", r"(a)?(?(1)(b)|(c))(d)", r"(?:(a)|(b)){0}c", r"(a){0}b", r"(?=)(a){0}b", r"((a)|(b))+",
+            r"(?<x>a)(?<y>b)?(?<z>c)", r"(?<x>a)|(?<y>b)|(c)", r"(?((a))(b)|(c))(d)", r"(?>(a)|(b))(c)", r"(?=(a))(?!(b))(?<=(a))(.)",
+        ] {
+            push(p.to_string(), &mut out);
+        }
+    }
     // context x filler products
     let conds = g.conds;
     let ctxs = contexts(conds);
@@ -118,6 +126,29 @@ pub fn patterns(space: &str, tier: &str, seed: u64) -> Vec<String> {
         push(s, &mut out);
         if out.len() > before {
             got += 1;
+        }
+    }
+    // unbounded repeats of possibly-empty bodies (F1 territory): outside the reference oracle's
+    // domain, explored for the implementation-vs-model tie
+    if !gf.empty_loops {
+        let mut ge = gf.clone();
+        ge.empty_loops = true;
+        let nextra = nrand / 3;
+        let mut got = 0;
+        let mut tries = 0;
+        while got < nextra && tries < nextra * 30 {
+            tries += 1;
+            let mut groups = 0;
+            let depth = 2 + r.below(3);
+            let p = ge.random(&mut r, depth, &mut groups);
+            let total = count_groups(&p);
+            let p = clamp_refs(&p, total);
+            let s = to_string(&p);
+            let before = out.len();
+            push(s, &mut out);
+            if out.len() > before {
+                got += 1;
+            }
         }
     }
     out
@@ -152,11 +183,12 @@ pub fn texts(space: &str, tier: &str) -> Vec<String> {
     for t in [
         "abc", "abab", "aab", "abba", "baab", "bcd", "ca-", "aaaa", "aaaaaa", "ab\nab", "a\nb", "\na", "a\n", "a\n\n", "b a",
         "a-b", "éa", "aé", "éé", "aéb", "abcabc", "aabc", "abcb", "bab", "cab", "acb", "a b", "ab ab", "ab-ab", "xay",
+        "a\r\nb", "ab\r\ncd", "\r", "a\r", "\r\n", "a\rb",
     ] {
         push(t.to_string(), &mut out);
     }
     if matches!(space, "c05" | "c13" | "c16") {
-        for t in ["日", "a日b", "€", "a€", "😀", "a😀b", "é日😀", "日日", "😀😀", "ßa", "aßb"] {
+        for t in ["日", "a日b", "€", "a€", "😀", "a😀b", "é日😀", "日日", "😀😀", "ßa", "aßb", "ÿ", "aÿ", "ÿa", "¿a", "अ", "aअ", "अa", "ก ก", "ÿÿ"] {
             push(t.to_string(), &mut out);
         }
         for t in all_texts(&['a', 'é', '日', '😀'], 2) {
@@ -166,9 +198,40 @@ pub fn texts(space: &str, tier: &str) -> Vec<String> {
     out
 }
 
+/// the character tables of the model, checked against the real crates for every character of the
+/// alphabet in use (DESIGN 3.1: the tables are theorem parameters, their values are tie data)
+pub fn chartab_line(s: &mut Session) {
+    let alphabet = "abcABCxyz019_- \n\r\t.-éÉßüÜÿŸ¿日€😀अก";
+    let w = regex::Regex::new(r"^\w$").unwrap();
+    let d = regex::Regex::new(r"^\d$").unwrap();
+    let sp = regex::Regex::new(r"^\s$").unwrap();
+    let mut parts = Vec::new();
+    for c in alphabet.chars() {
+        let cs = c.to_string();
+        let mut partner = "-".to_string();
+        let mut cands: Vec<char> = c.to_lowercase().chain(c.to_uppercase()).collect();
+        if c.to_lowercase().count() != 1 || c.to_uppercase().count() != 1 {
+            cands.clear();
+        }
+        for k in cands {
+            if k != c {
+                let re = regex::Regex::new(&format!("^(?i:{})$", regex::escape(&cs))).unwrap();
+                if re.is_match(&k.to_string()) {
+                    partner = (k as u32).to_string();
+                }
+            }
+        }
+        parts.push(format!("{}:{}{}{}:{}", c as u32, w.is_match(&cs) as u8, d.is_match(&cs) as u8, sp.is_match(&cs) as u8, partner));
+    }
+    s.line(&format!("chartab\t{}", crate::wire::hex(alphabet)), &parts.join(" "));
+}
+
 pub fn run(cfg: &Cfg) {
     let mut s = Session::new(&cfg.out);
     s.line(&format!("special\t{}", crate::wire::hex("\\.+*?()|[]{}^$#")), "ok");
+    if cfg.shard == 0 {
+        chartab_line(&mut s);
+    }
     let pats = patterns(&cfg.space, &cfg.tier, cfg.seed);
     let txts = texts(&cfg.space, &cfg.tier);
     let limits: Vec<usize> = if cfg.space == "c07" {
